@@ -147,4 +147,37 @@ CLAIMS = {
                 "argminFirst and tied by correspondence only. Queries without empty rows, as the property states.",
         "technique": "Lean 4 theorems over executable model + differential correspondence",
     },
+    "C05": {
+        "text": "C05_partition (every successful workflow: the final clusters are a permutation of 0..N-1, N = total rows in input-file "
+                "order), C05_centroids / C05_centroid_is_majority (saved centroids aligned with the clusters and equal to the majority vote "
+                "of each cluster's members), C05_exact, C05_pairing / C05_prevPairs (sorted buffer listing zipped with sorted index listing "
+                "pairs every buffer file with its own member list), C05_handover, C05_zfill_*; for every valid policy family and every "
+                "initial directory. Correspondence: every round-* file, clusters and centroids of the real workflow vs the model.",
+        "note": TB + "PARTIAL: .npy streaming and pickle encodings are trusted to round-trip (file contents are model values; covered by the "
+                "file-by-file correspondence only). max_fps / max_files debug options and save_tree pickles are outside the model. "
+                "Round-1 trees take the default tolerance (the code does not pass `tolerance` to them): modelled as is.",
+        "technique": "Lean 4 theorems over executable workflow model + file-by-file differential correspondence",
+    },
+    "C06": {
+        "text": "C06_names_inj (buffer/index names determine round, label, width; never collide), C06_disjoint (tasks of a round write "
+                "pairwise disjoint names), C06_write_comm / C06_commute (executing the tasks of a round in any order gives the same "
+                "directory), C06_sorted / C06_prevPairs (the next round's input depends only on the SET of files), C06_sched (the result of "
+                "the whole workflow is the same for every schedule). Correspondence: real workflow under random in-process task orders, "
+                "real fork/forkserver pools with 2-5 processes and max-tasks 1/2/None, serial execution, shuffled directory listings.",
+        "note": TB + "PARTIAL: OS scheduling, process start methods and pickling of task objects are exercised, not modelled; the model's task "
+                "reads the directory as it was at the start of its round (tasks never read each other's output: C06_disjoint + names by round).",
+        "technique": "Lean 4 commutation proof over protocol model + schedule-permutation differential",
+    },
+    "C14": {
+        "text": "C14_fresh (for EVERY initial directory content the run's round and final files equal those of a run in an empty directory, "
+                "and foreign files are untouched: leftovers of any earlier run / crash prefix are never consumed), C14_cleanup (no round "
+                "file after a successful run with cleanup), C14_commit_last (in the trace of directory states after the initial purge and "
+                "after every single write, clusters.pkl is absent from every state before its own write: an interrupted run leaves no "
+                "final cluster file), C14_purge_first, C14_trace_result. Correspondence/oracle: crash injected at every file effect, stale "
+                "directories, re-runs with same/changed/fewer inputs compared with fresh-directory runs.",
+        "note": TB + "PARTIAL: a crash falls between two Python-level file effects or inside one (leaving a prefix); power loss, page-cache "
+                "and directory-entry durability are not modelled; purge and cleanup are single trace steps. Models the repaired protocol "
+                "(fix b141a19).",
+        "technique": "Lean 4 theorems over workflow trace model + exhaustive crash-point injection",
+    },
 }
